@@ -52,6 +52,10 @@ class Cfg:
         r = re.escape(self.repl()) + r"_[0-9a-f]{16}"
         return re.compile(r"^%s(\.%s)*$" % (r, r))
 
+    def pseudo_split(self, text):
+        """The component pseudonyms of a (dotted) pseudonym - the replacement text itself may contain dots."""
+        return re.findall(re.escape(self.repl()) + r"_[0-9a-f]{16}", text)
+
     def desc(self):
         return {"name": self.name, "flags": self.flags() + (["--encrypt"] if self.encrypt else [])}
 
